@@ -3,7 +3,7 @@ RtrModel); tie (b): boundary grid through the real rtr_sync + Model trace equali
 import rtrsim as R
 from props import rtr_common
 
-THEOREMS = ["C17_code_is_model", "C17_init", "C17_mode", "C17_unchanged", "C17_in_range", "C17_poll_deadline"]
+THEOREMS = ["C17_code_is_model", "C17_init", "C17_mode", "C17_unchanged", "C17_in_range", "C17_poll_deadline", "C17_wait_translated"]
 RANGES = {"refresh": (1, 86400), "retry": (1, 7200), "expire": (600, 172800)}
 EDGE = {"refresh": [0, 1, 2, 86399, 86400, 86401, 2 ** 32 - 1, 3600],
         "retry": [0, 1, 2, 7199, 7200, 7201, 2 ** 32 - 1, 600],
